@@ -284,3 +284,96 @@ Print Assumptions C01_tie_aopen_shape.
 Print Assumptions C01_tie_only_through_imp.
 Print Assumptions C01_tie_call_refinement.
 Print Assumptions C01_tie_machine_wrappers_pin.
+
+(** ---- tie of the callback wiring (session 5): nextline/fsm/machine.py + callback.py regenerated as
+    Gen/MachineWiring.v by translate/machine_wiring.py; Life/MachineTie.v derives, from the regenerated
+    CONFIG FsmConfig.table and method set, the callbacks the `transitions` library runs for one trigger (trusted:
+    the order written there, with references to the installed source), expands them through the
+    regenerated method bodies and proves, for ALL model states, that the model's segments are that program. *)
+From NL Require Life.MachineSyntax Gen.MachineWiring Life.MachineTie.
+
+(** the scripts of all ten rows, derived by computation from the regenerated files *)
+Theorem C01_tie_machine_script_table :
+  MachineTie.script Created FsmConfig.TInitialize = Some (Some Initialized, [MachineTie.Cb "on_exit_created"; MachineTie.SetState Initialized; MachineTie.Cb "on_enter_initialized"; MachineTie.Cb "after_state_change"]) /\
+  MachineTie.script Initialized FsmConfig.TRun = Some (Some Running, [MachineTie.SetState Running; MachineTie.Cb "on_enter_running"; MachineTie.Cb "after_state_change"]) /\
+  MachineTie.script Running FsmConfig.TFinish = Some (Some Finished, [MachineTie.SetState Finished; MachineTie.Cb "on_enter_finished"; MachineTie.Cb "after_state_change"]) /\
+  MachineTie.script Initialized FsmConfig.TReset = Some (Some Initialized, [MachineTie.Cb "on_reset"; MachineTie.SetState Initialized; MachineTie.Cb "on_enter_initialized"; MachineTie.Cb "after_state_change"]) /\
+  MachineTie.script Finished FsmConfig.TReset = Some (Some Initialized, [MachineTie.Cb "on_reset"; MachineTie.Cb "on_exit_finished"; MachineTie.SetState Initialized; MachineTie.Cb "on_enter_initialized"; MachineTie.Cb "after_state_change"]) /\
+  MachineTie.script Created FsmConfig.TClose = Some (Some Closed, [MachineTie.Cb "on_exit_created"; MachineTie.SetState Closed; MachineTie.Cb "on_enter_closed"; MachineTie.Cb "after_state_change"]) /\
+  MachineTie.script Initialized FsmConfig.TClose = Some (Some Closed, [MachineTie.SetState Closed; MachineTie.Cb "on_enter_closed"; MachineTie.Cb "after_state_change"]) /\
+  MachineTie.script Running FsmConfig.TClose = Some (Some Closed, [MachineTie.Cb "on_close_while_running"; MachineTie.SetState Closed; MachineTie.Cb "on_enter_closed"; MachineTie.Cb "after_state_change"]) /\
+  MachineTie.script Finished FsmConfig.TClose = Some (Some Closed, [MachineTie.Cb "on_exit_finished"; MachineTie.SetState Closed; MachineTie.Cb "on_enter_closed"; MachineTie.Cb "after_state_change"]) /\
+  MachineTie.script Closed FsmConfig.TClose = Some (None, [MachineTie.Cb "after_state_change"]).
+Proof. exact MachineTie.script_table. Qed.
+
+(** a trigger is refused (MachineError) exactly for the (trigger, state) pairs without a row *)
+Theorem C01_tie_machine_refused : forall src tr,
+  MachineTie.script src tr = None <->
+  match tr, src with
+  | FsmConfig.TInitialize, Created | FsmConfig.TRun, Initialized | FsmConfig.TFinish, Running | FsmConfig.TClose, _
+  | FsmConfig.TReset, Initialized | FsmConfig.TReset, Finished => False
+  | _, _ => True
+  end.
+Proof. exact MachineTie.script_refused. Qed.
+
+(** every state change of every script goes along a row of CONFIG: exactly one per accepted trigger, none for the internal one *)
+Theorem C01_tie_machine_moves : forall src tr dest acts, MachineTie.script src tr = Some (dest, acts) ->
+  exists b, In (tr, src, dest, b) FsmConfig.table /\
+  filter (fun a => match a with MachineTie.SetState _ => true | _ => false end) acts =
+  match dest with Some d => [MachineTie.SetState d] | None => [] end.
+Proof. exact MachineTie.script_moves_along_table. Qed.
+
+(** the model's first segment of start / run / reset = the program derived from the regenerated code, all states *)
+Theorem C01_tie_machine_enter_start : forall s t c, enter_start s t c = MachineTie.api_trigger t c FsmConfig.TInitialize s.
+Proof. exact MachineTie.tie_enter_start. Qed.
+Theorem C01_tie_machine_enter_run : forall s t c, enter_run s t c = MachineTie.api_trigger t c FsmConfig.TRun s.
+Proof. exact MachineTie.tie_enter_run. Qed.
+Theorem C01_tie_machine_enter_reset : forall s t o, enter_reset s t o = MachineTie.api_trigger t (CReset o) FsmConfig.TReset s.
+Proof. exact MachineTie.tie_enter_reset. Qed.
+
+(** ... and every later segment of the same trigger (the task stepped at a gate / wait inside it) *)
+Theorem C01_tie_machine_step_initialize : forall s t c p, find_task (tasks s) t = Some (c, p) ->
+  In p [S_G1; S_G2; S_G3] ->
+  do_step s t = MachineTie.api_resume t c FsmConfig.TInitialize p (MachineTie.api_cont t c FsmConfig.TInitialize Created p) s.
+Proof. exact MachineTie.tie_step_initialize. Qed.
+Theorem C01_tie_machine_step_run : forall s t c p, find_task (tasks s) t = Some (c, p) ->
+  In p [R_WaitStarted; R_G] ->
+  do_step s t = MachineTie.api_resume t c FsmConfig.TRun p (MachineTie.api_cont t c FsmConfig.TRun Initialized p) s.
+Proof. exact MachineTie.tie_step_run. Qed.
+Theorem C01_tie_machine_step_reset_before : forall s t o p, find_task (tasks s) t = Some (CReset o, p) ->
+  (st_fsm s = Initialized \/ st_fsm s = Finished) ->
+  (p = Z_G1 /\ o_stmt o <> None) \/ p = Z_G1b \/ (p = Z_WaitRunTask /\ st_fsm s = Finished) ->
+  do_step s t = MachineTie.api_resume t (CReset o) FsmConfig.TReset p (MachineTie.api_cont t (CReset o) FsmConfig.TReset (st_fsm s) p) s.
+Proof. exact MachineTie.tie_step_reset_before. Qed.
+Theorem C01_tie_machine_step_reset_after : forall s t o p src, find_task (tasks s) t = Some (CReset o, p) ->
+  (src = Initialized \/ src = Finished) -> In p [Z_G3; Z_G4] ->
+  do_step s t = MachineTie.api_resume t (CReset o) FsmConfig.TReset p (MachineTie.api_cont t (CReset o) FsmConfig.TReset src p) s.
+Proof. exact MachineTie.tie_step_reset_after. Qed.
+
+(** the run task: finally of Callback._run + Callback._finish + the trigger `finish` inside try/finally *)
+Theorem C01_tie_machine_run_finish : forall s,
+  exists k, MachineTie.run_tail (st_fsm s) = Some k /\ run_finish s = MachineTie.run_embed (MachineTie.run k s).
+Proof. exact MachineTie.tie_run_finish. Qed.
+Theorem C01_tie_machine_step_run_task : forall s p, runt s = Some p -> In p [RT_G_fin; RT_G_cs] ->
+  exists k, MachineTie.run_tail Running = Some k /\
+            do_step_run s = MachineTie.run_embed (MachineTie.run (MachineTie.after_rpc p k) s).
+Proof. exact MachineTie.tie_step_run_task. Qed.
+
+(** what __init__ wires and what CONFIG sets: no queueing, invalid triggers raise, model=self, the one after_state_change *)
+Theorem C01_tie_machine_wiring : FsmConfig.ignore_invalid_triggers = false /\ FsmConfig.queued = false /\ MachineTie.model_is_self = true /\
+  MachineTie.wired_after_state_change = ["after_state_change"%string] /\ MachineTie.callback_backref = true.
+Proof. exact MachineTie.config_flags. Qed.
+
+Print Assumptions C01_tie_machine_script_table.
+Print Assumptions C01_tie_machine_refused.
+Print Assumptions C01_tie_machine_moves.
+Print Assumptions C01_tie_machine_enter_start.
+Print Assumptions C01_tie_machine_enter_run.
+Print Assumptions C01_tie_machine_enter_reset.
+Print Assumptions C01_tie_machine_step_initialize.
+Print Assumptions C01_tie_machine_step_run.
+Print Assumptions C01_tie_machine_step_reset_before.
+Print Assumptions C01_tie_machine_step_reset_after.
+Print Assumptions C01_tie_machine_run_finish.
+Print Assumptions C01_tie_machine_step_run_task.
+Print Assumptions C01_tie_machine_wiring.
